@@ -722,3 +722,194 @@ Lemma valid_cmdsb_spec G : forall cmds A, valid_cmdsb G A cmds = true -> valid_c
 Proof. induction cmds as [|[e steps] cmds IH]; intros A H; cbn [valid_cmds valid_cmdsb] in *; auto.
   rewrite !andb_true_iff in H. destruct H as [[H1 H2] H3]. split; [apply valid_stepsb_spec; auto|]. split; auto.
   destruct e; cbn in *; auto. { apply seteqN_spec; auto. } apply is_nil_true; auto. Qed.
+
+(* ================================================================== K. offline (as_sql) mode *)
+(* whatever the online code does successfully, the offline code does identically (it only skips the rowcount check) *)
+Definition le_res (a b : res (hm * list stmt)) : Prop := forall r, a = Ok r -> b = Ok r.
+
+Lemma le_then a b f g : le_res a b -> (forall s, le_res (f s) (g s)) -> le_res (then_ a f) (then_ b g).
+Proof. intros H1 H2 r. unfold then_. destruct a as [p|e]; cbn [bind]; [|discriminate]. rewrite (H1 p eq_refl). cbn [bind].
+  destruct (f (fst p)) as [q|e] eqn:E; cbn [bind]; [|discriminate]. rewrite (H2 _ q E). cbn [bind]. auto. Qed.
+Lemma le_each op1 op2 : (forall v s, le_res (op1 v s) (op2 v s)) -> forall l s, le_res (each op1 l s) (each op2 l s).
+Proof. intros H. induction l as [|x l IH]; intros s r; cbn [each]; auto.
+  destruct (op1 x s) as [p|e] eqn:E; cbn [bind]; [|discriminate]. rewrite (H _ _ p E). cbn [bind].
+  destruct (each op1 l (fst p)) as [q|e] eqn:E2; cbn [bind]; [|discriminate]. rewrite (IH _ q E2). cbn [bind]. auto. Qed.
+Lemma le_refl a : le_res a a. Proof. intros r; auto. Qed.
+
+Section Mono.
+  Variables del1 del2 : N -> hm -> res (hm * list stmt).
+  Variables upd1 upd2 : N -> N -> hm -> res (hm * list stmt).
+  Hypothesis Hdel : forall v s, le_res (del1 v s) (del2 v s).
+  Hypothesis Hupd : forall f t s, le_res (upd1 f t s) (upd2 f t s).
+  Variable G : graph.
+  Variable ord : list N -> list N.
+
+  Lemma le_bind_upd x s : le_res (bind x (fun ft => upd1 (fst ft) (snd ft) s)) (bind x (fun ft => upd2 (fst ft) (snd ft) s)).
+  Proof. destruct x as [ft|e]; cbn [bind]; [apply Hupd|apply le_refl]. Qed.
+
+  Lemma step_p_mono st s : le_res (update_to_step_p del1 upd1 G ord st s) (update_to_step_p del2 upd2 G ord st s).
+  Proof. destruct st as [r up|from to up bm]; cbn [update_to_step_p].
+    - unfold rev_step_p. destruct up.
+      + destruct (is_nil (norm_down G r) || is_nil (interN (norm_down G r) (heads s))); [apply le_refl|].
+        destruct (Nat.ltb 1 (length (norm_down G r)) && Nat.ltb 1 (length (interN (norm_down G r) (heads s)))).
+        * apply le_then; [apply le_each; auto|intros; apply Hupd].
+        * apply le_bind_upd.
+      + destruct (memN r (heads s)); [|apply le_bind_upd].
+        destruct (is_nil (norm_down G r)); [apply Hdel|].
+        destruct (unmerge_to_revisions G r (heads s)) as [to0|e]; [|apply le_refl].
+        destruct (is_nil to0); [apply Hdel|].
+        destruct (Nat.ltb 1 (length (norm_down G r))); [|apply le_bind_upd].
+        apply le_then; [apply le_refl|intros; apply Hupd].
+    - unfold stamp_step_p.
+      destruct (negb up && bm). { destruct from as [|v [|? ?]]; try apply le_refl. apply Hdel. }
+      destruct (up && (bm || negb (subsetN from (heads s))) && negb (subsetN to (heads s))); [apply le_refl|].
+      destruct (Nat.ltb 1 (length from)).
+      { destruct to; [apply le_refl|]. apply le_then; [apply le_each; auto|intros; apply Hupd]. }
+      destruct (Nat.ltb 1 (length to)).
+      { destruct from; [apply le_refl|]. apply le_then; [apply le_refl|intros; apply Hupd]. }
+      destruct from as [|f [|? ?]]; try apply le_refl. destruct to as [|t [|? ?]]; try apply le_refl. apply Hupd. Qed.
+
+  Lemma run_steps_p_mono : forall steps s os s', run_steps_p del1 upd1 G ord steps s = (os, Some s') ->
+    run_steps_p del2 upd2 G ord steps s = (os, Some s').
+  Proof. induction steps as [|st steps IH]; intros s os s' E; cbn [run_steps_p] in *; auto.
+    destruct (update_to_step_p del1 upd1 G ord st s) as [[s1 stm]|e] eqn:E1; [|inversion E].
+    rewrite (step_p_mono st s _ E1).
+    destruct (run_steps_p del1 upd1 G ord steps s1) as [o f] eqn:E2. inversion E; subst. rewrite (IH _ _ _ E2). reflexivity. Qed.
+End Mono.
+
+Lemma del_g_le as_sql v s : le_res (delete_version_g false v s) (delete_version_g as_sql v s).
+Proof. intros r. unfold delete_version_g. destruct (memN v (heads s)); auto. cbn [orb].
+  destruct (Nat.eqb (countN v (rows s)) 1); [rewrite orb_true_r; auto|discriminate]. Qed.
+Lemma upd_g_le as_sql f t s : le_res (update_version_g false f t s) (update_version_g as_sql f t s).
+Proof. intros r. unfold update_version_g. destruct (memN t (heads s)); auto. destruct (memN f (heads s)); auto. cbn [orb].
+  destruct (Nat.eqb (countN f (rows s)) 1); [rewrite orb_true_r; auto|discriminate]. Qed.
+
+(* the online functions are the instance as_sql = false of the generic text *)
+Lemma online_is_instance G ord st s : update_to_step_g false G ord st s = update_to_step G ord st s.
+Proof. destruct st; reflexivity. Qed.
+Lemma run_steps_is_instance G ord : forall steps s, run_steps_g false G ord steps s = run_steps G ord steps s.
+Proof. induction steps as [|st steps IH]; intros s; [reflexivity|]. unfold run_steps_g in *. cbn [run_steps_p run_steps].
+  change (update_to_step_p (delete_version_g false) (update_version_g false) G ord st s) with (update_to_step_g false G ord st s).
+  rewrite online_is_instance. destruct (update_to_step G ord st s) as [[s1 stm]|e]; try reflexivity. Qed.
+
+(* the emitted statement list (and the evolution of heads/rows) is the same in both modes *)
+Theorem as_sql_same_step G ord as_sql st s r : update_to_step G ord st s = Ok r -> update_to_step_g as_sql G ord st s = Ok r.
+Proof. rewrite <- online_is_instance. unfold update_to_step_g. apply step_p_mono; intros; [apply del_g_le|apply upd_g_le]. Qed.
+
+Theorem as_sql_same_trace G ord as_sql steps s os s' :
+  run_steps G ord steps s = (os, Some s') -> run_steps_g as_sql G ord steps s = (os, Some s').
+Proof. rewrite <- run_steps_is_instance. unfold run_steps_g. apply run_steps_p_mono; intros; [apply del_g_le|apply upd_g_le]. Qed.
+
+(* hence C03_invariant holds verbatim for the offline HeadMaintainer: same observations, statement by statement *)
+Theorem offline_invariant G ord as_sql steps A s : gwf G -> (forall l, Permutation (ord l) l) ->
+  Inv G A s -> valid_steps G A steps ->
+  exists os s', run_steps_g as_sql G ord steps s = (os, Some s') /\ run_steps G ord steps s = (os, Some s') /\
+                steps_hold G A steps os /\ Inv G (ghost_steps steps A) s'.
+Proof. intros W OP I V. destruct (run_steps_thm G ord W OP steps A s I V) as [os [s' [E [SH [I' _]]]]].
+  exists os, s'. split; [apply as_sql_same_trace; auto|auto]. Qed.
+
+(* the offline code never raises the rowcount CommandError *)
+Lemma offline_no_command_error_del v s : delete_version_g true v s <> Err ECommand.
+Proof. unfold delete_version_g. destruct (memN v (heads s)); cbn [orb]; discriminate. Qed.
+Lemma offline_no_command_error_upd f t s : update_version_g true f t s <> Err ECommand.
+Proof. unfold update_version_g. destruct (memN t (heads s)); [discriminate|]. destruct (memN f (heads s)); cbn [orb]; discriminate. Qed.
+
+(* ---------- the emitted script, executed on the table, reproduces the trace ---------- *)
+Definition exec_ok (r : res (hm * list stmt)) (s:hm) : Prop :=
+  forall s' stm, r = Ok (s', stm) -> exec_stmts (map erase stm) (rows s) = (rows s', stm).
+
+Lemma exec_stmts_app a b rws : exec_stmts (a ++ b) rws =
+  let (r1, a') := exec_stmts a rws in let (r2, b') := exec_stmts b r1 in (r2, a' ++ b').
+Proof. revert rws; induction a as [|x a IH]; intros rws; cbn [app exec_stmts].
+  - destruct (exec_stmts b rws); reflexivity.
+  - destruct (exec_stmt x rws) as [r1 x']. rewrite IH. destruct (exec_stmts a r1) as [r2 a']. destruct (exec_stmts b r2); reflexivity. Qed.
+
+Lemma exec_then a f s : exec_ok a s -> (forall s1, exec_ok (f s1) s1) -> exec_ok (then_ a f) s.
+Proof. intros H1 H2 s' stm. unfold then_. destruct a as [[s1 st1]|e]; cbn [bind fst snd]; [|discriminate].
+  destruct (f s1) as [[s2 st2]|e] eqn:E; cbn [bind fst snd]; [|discriminate]. inversion 1; subst.
+  rewrite map_app, exec_stmts_app, (H1 s1 st1 eq_refl), (H2 s1 s' st2 E). reflexivity. Qed.
+Lemma exec_each op : (forall v s, exec_ok (op v s) s) -> forall l s, exec_ok (each op l s) s.
+Proof. intros H. induction l as [|x l IH]; intros s s' stm; cbn [each].
+  - inversion 1; subst. reflexivity.
+  - change (bind (op x s) (fun p => bind (each op l (fst p)) (fun q => Ok (fst q, snd p ++ snd q)))) with (then_ (op x s) (each op l)).
+    apply exec_then; auto. Qed.
+Lemma exec_insert_version v s : exec_ok (insert_version v s) s.
+Proof. intros s' stm. unfold insert_version. destruct (memN v (heads s)); [discriminate|]. inversion 1; subst. reflexivity. Qed.
+Lemma exec_delete_g a v s : exec_ok (delete_version_g a v s) s.
+Proof. intros s' stm. unfold delete_version_g. destruct (memN v (heads s)); [|discriminate].
+  destruct (a || Nat.eqb (countN v (rows s)) 1); [|discriminate]. inversion 1; subst. reflexivity. Qed.
+Lemma exec_update_g a f t s : exec_ok (update_version_g a f t s) s.
+Proof. intros s' stm. unfold update_version_g. destruct (memN t (heads s)); [discriminate|]. destruct (memN f (heads s)); [|discriminate].
+  destruct (a || Nat.eqb (countN f (rows s)) 1); [|discriminate]. inversion 1; subst. reflexivity. Qed.
+Lemma exec_err e s : exec_ok (Err e) s. Proof. intros s' stm; discriminate. Qed.
+
+Section Exec.
+  Variable a : bool.
+  Variable G : graph.
+  Variable ord : list N -> list N.
+  Let del := delete_version_g a.
+  Let upd := update_version_g a.
+
+  Lemma exec_bind_upd x s : exec_ok (bind x (fun ft => upd (fst ft) (snd ft) s)) s.
+  Proof. destruct x as [ft|e]; cbn [bind]; [apply exec_update_g|apply exec_err]. Qed.
+
+  Lemma exec_step st s : exec_ok (update_to_step_g a G ord st s) s.
+  Proof. unfold update_to_step_g. fold del upd. destruct st as [r up|from to up bm]; cbn [update_to_step_p].
+    - unfold rev_step_p. destruct up.
+      + destruct (is_nil (norm_down G r) || is_nil (interN (norm_down G r) (heads s))); [apply exec_insert_version|].
+        destruct (Nat.ltb 1 (length (norm_down G r)) && Nat.ltb 1 (length (interN (norm_down G r) (heads s)))).
+        * apply exec_then; [apply exec_each; intros; apply exec_delete_g|intros; apply exec_update_g].
+        * apply exec_bind_upd.
+      + destruct (memN r (heads s)); [|apply exec_bind_upd].
+        destruct (is_nil (norm_down G r)); [apply exec_delete_g|].
+        destruct (unmerge_to_revisions G r (heads s)) as [to0|e]; [|apply exec_err].
+        destruct (is_nil to0); [apply exec_delete_g|].
+        destruct (Nat.ltb 1 (length (norm_down G r))); [|apply exec_bind_upd].
+        apply exec_then; [apply exec_each; intros; apply exec_insert_version|intros; apply exec_update_g].
+    - unfold stamp_step_p.
+      destruct (negb up && bm). { destruct from as [|v [|? ?]]; try apply exec_err. apply exec_delete_g. }
+      destruct (up && (bm || negb (subsetN from (heads s))) && negb (subsetN to (heads s))).
+      { destruct to as [|v [|? ?]]; try apply exec_err. apply exec_insert_version. }
+      destruct (Nat.ltb 1 (length from)).
+      { destruct to; [apply exec_err|]. apply exec_then; [apply exec_each; intros; apply exec_delete_g|intros; apply exec_update_g]. }
+      destruct (Nat.ltb 1 (length to)).
+      { destruct from; [apply exec_err|]. apply exec_then; [apply exec_each; intros; apply exec_insert_version|intros; apply exec_update_g]. }
+      destruct from as [|f [|? ?]]; try apply exec_err. destruct to as [|t [|? ?]]; try apply exec_err. apply exec_update_g. Qed.
+
+  Lemma replay_trace : forall steps s os s', run_steps_g a G ord steps s = (os, Some s') ->
+    replay (map to_sobs os) (rows s) = os.
+  Proof. unfold run_steps_g. induction steps as [|st steps IH]; intros s os s' E; cbn [run_steps_p] in E.
+    - inversion E; subst. reflexivity.
+    - change (update_to_step_p (delete_version_g a) (update_version_g a) G ord st s) with (update_to_step_g a G ord st s) in E.
+      destruct (update_to_step_g a G ord st s) as [[s1 stm]|e] eqn:E1; [|inversion E].
+      destruct (run_steps_p (delete_version_g a) (update_version_g a) G ord steps s1) as [o f] eqn:E2. inversion E; subst.
+      cbn [map to_sobs replay]. rewrite (exec_step st s s1 stm E1). rewrite (IH s1 o s' E2). reflexivity. Qed.
+End Exec.
+
+Theorem any_decider_sound3 i o : check_C03_any i o = true -> C03_any_holds i o.
+Proof. destruct i as [i|i], o as [o|o]; cbn; try discriminate; [apply decider_sound|].
+  destruct i as [[[G rws0] reset] cmds]. unfold check_offline, Offline_holds. apply decider_sound. Qed.
+
+(* the main offline theorem: every `--sql` command with a valid plan from starting_rev = rws0 emits a script that, executed
+   on a table holding rws0, matches exactly one row per statement and leaves rows = heads of the applied set after
+   every step — and it is statement by statement the script's online counterpart *)
+Lemma offline_eq G rws0 cmds A0 :
+  wf_refs G -> ~ cyclic (all_down G) -> ndeps_okb G = true ->
+  closure G rws0 = Some A0 -> (forall c, In c cmds -> valid_cmds G A0 [c]) -> pre_C03 (G, rws0, true, cmds) = true ->
+  map (fun os => replay os rws0) (model_offline (G, rws0, true, cmds)) = model_C03 (G, rws0, true, cmds).
+Proof. intros WF AC NK E V PRE.
+  unfold model_offline, model_C03. rewrite map_map. apply map_ext_in. intros [e steps] Hc. cbn [snd].
+  pose proof (gwf_of G WF AC NK) as W. pose proof (pre_InvR _ _ _ _ _ PRE E) as I.
+  destruct (V _ Hc) as [V1 _]. cbn [snd] in V1.
+  destruct (run_steps_thm G (fun l => l) W (fun l => Permutation_refl l) steps A0 (start rws0) (start_Inv G A0 rws0 I) V1)
+    as [os [s' [E1 _]]].
+  unfold run_cmd_g, run_cmd. rewrite E1, (as_sql_same_trace G (fun l => l) true steps (start rws0) os s' E1). cbn [fst].
+  apply (replay_trace true G (fun l => l) steps (start rws0) os s'). apply as_sql_same_trace; auto. Qed.
+
+Theorem main_offline G rws0 cmds A0 :
+  wf_refs G -> ~ cyclic (all_down G) -> ndeps_okb G = true ->
+  closure G rws0 = Some A0 -> (forall c, In c cmds -> valid_cmds G A0 [c]) ->
+  Offline_holds (G, rws0, true, cmds) (model_offline (G, rws0, true, cmds)).
+Proof. intros WF AC NK E V. unfold Offline_holds, C03_holds. intros PRE.
+  rewrite (offline_eq G rws0 cmds A0 WF AC NK E V PRE).
+  exact (main_each G (fun l => l) rws0 cmds A0 WF AC NK (fun l => Permutation_refl l) E V PRE). Qed.
